@@ -91,7 +91,7 @@ def operand_rows(op, dimA, dimB, sa, sb, tier):
     if tier != "thorough":
         # always keep the vectors whose azimuth is stored outside [-pi, pi] (a stratum of its own)
         reg, wild = [v for v in firsts if not v.has("wildphi")], [v for v in firsts if v.has("wildphi")]
-        firsts = reg[:: max(1, len(reg) // 6)][:6] + wild
+        firsts = A.representatives(reg, 6) + wild
     rows_a, rows_b = [], []
     if dimB is None:
         for v in firsts:
